@@ -17,6 +17,13 @@ if __name__ == '__main__':
         out = getattr(mod, spec['fn'])(spec)
         res.update(out)
     except BaseException as ex:
-        res['status'] = 'ERROR'; res['error'] = ''.join(traceback.format_exception(type(ex), ex, ex.__traceback__))[-3000:]
+        from vk.smtkit import UnsupportedSyntax
+        if isinstance(ex, UnsupportedSyntax):
+            # the current source of the kernel is outside Engine B's statement subset (e.g. after a refactoring): no verdict
+            # from this job - reported as inconclusive, never as a pass and never as a violation; Engine A shards still decide
+            res['status'] = 'INCOMPLETE'; res['paths'] = 0; res['queries'] = 0
+            res['detail'] = f'Engine B cannot encode the current source: {ex}'
+        else:
+            res['status'] = 'ERROR'; res['error'] = ''.join(traceback.format_exception(type(ex), ex, ex.__traceback__))[-3000:]
     res['wall_s'] = round(_pc() - t0, 2)
     print('RESULT ' + json.dumps(res, default=str), flush=True)
